@@ -153,7 +153,9 @@ fn check_mut(c: &MutCase, rec: &mut Rec) -> CheckResult {
 
 /// Auxiliary deterministic gate prescribed by the property's observe_at:
 /// the library must compile with `-F unsafe_code`.
-fn unsafe_lint(e: &Engine) {
+/// Verdict of the `-F unsafe_code` build: Ok(Ok(secs)) compiles, Ok(Err(line)) unsafe code found,
+/// Err(why) the build could not be judged.
+fn unsafe_lint_once() -> Result<Result<f64, String>, String> {
     let repo = std::env::var("VERIF_REPO").unwrap_or_else(|_| "/repo".to_string());
     let target = std::env::var("VERIF_LINT_TARGET").unwrap_or_else(|_| format!("{}/target/lint", VERIF_DIR));
     let t0 = std::time::Instant::now();
@@ -165,21 +167,45 @@ fn unsafe_lint(e: &Engine) {
         .output();
     let secs = t0.elapsed().as_secs_f64();
     match out {
-        Err(err) => e.inconclusive(format!("could not run the unsafe_code lint build: {}", err)),
+        Err(err) => Err(format!("could not run the unsafe_code lint build: {}", err)),
         Ok(o) => {
             let stderr = String::from_utf8_lossy(&o.stderr).to_string();
             // rustc: "error: usage of an `unsafe` block ... note: requested on the command line with `-F unsafe-code`"
             let forbidden = stderr.contains("-F unsafe-code") || stderr.contains("forbid(unsafe_code)") || stderr.lines().any(|l| l.starts_with("error") && l.contains("`unsafe`"));
             if o.status.success() {
-                e.extra("auxiliary_unsafe_code_lint", json!({"cmd": "cargo rustc --lib --features levenshtein -- -F unsafe_code", "result": "compiles: no unsafe code in the library", "wall_s": secs, "note": "compiler lint prescribed by the property's observe_at; not a generated check and not part of the case counts"}));
+                Ok(Ok(secs))
             } else if forbidden {
-                let first = stderr.lines().find(|l| l.contains("unsafe")).unwrap_or("").to_string();
-                e.report("unsafe-code-lint", json!({"lint": "cargo rustc --lib --features levenshtein -- -F unsafe_code"}), Fail::new("unsafe-code", format!("the library does not compile with -F unsafe_code: {}", first)));
+                Ok(Err(stderr.lines().find(|l| l.contains("unsafe")).unwrap_or("").to_string()))
             } else {
-                e.inconclusive(format!("lint build failed for a reason other than unsafe code: {}", crate::engine::truncate(&stderr, 400)));
+                Err(format!("lint build failed for a reason other than unsafe code: {}", crate::engine::truncate(&stderr, 400)))
             }
         }
     }
+}
+
+fn unsafe_lint(e: &Engine) {
+    match unsafe_lint_once() {
+        Err(why) => e.inconclusive(why),
+        Ok(Ok(secs)) => e.extra("auxiliary_unsafe_code_lint", json!({"cmd": "cargo rustc --lib --features levenshtein -- -F unsafe_code", "result": "compiles: no unsafe code in the library", "wall_s": secs, "note": "compiler lint prescribed by the property's observe_at; not a generated check and not part of the case counts"})),
+        Ok(Err(first)) => e.report("unsafe-code-lint", json!({"lint": "cargo rustc --lib --features levenshtein -- -F unsafe_code"}), Fail::new("unsafe-code", format!("the library does not compile with -F unsafe_code: {}", first))),
+    }
+}
+
+/// A long input with a plausible header and footer (filler derived from `seed`).
+fn check_long(l: &usize, v: &u64, seed: u64, rec: &mut Rec) -> CheckResult {
+    let mut b: Vec<u8> = (0..*l).map(|i| crate::engine::mix(seed ^ *v, i as u64 / 3) as u8).collect();
+    let version = 1 + (*v % 3);
+    b[..8].copy_from_slice(&version.to_le_bytes());
+    let end = if version >= 3 { *l - 4 } else { *l };
+    let root: u64 = match *v {
+        0 | 1 | 2 => (end - 17) as u64,
+        3 => 0,
+        4 => u64::MAX - 3,
+        _ => (*l as u64) + 5,
+    };
+    b[end - 8..end].copy_from_slice(&root.to_le_bytes());
+    b[end - 16..end - 8].copy_from_slice(&(*l as u64 * 3).to_le_bytes());
+    check_bytes(&b, rec)
 }
 
 pub fn run(e: &Engine) {
@@ -213,21 +239,7 @@ pub fn run(e: &Engine) {
     // long inputs: lengths around 2^16, 2^24 (and a few in between), supported versions, varied footers
     let lens: Vec<usize> = [65_530usize, 65_535, 65_536, 65_537, 65_538, 65_539, 65_540, 131_072, 1 << 20, (1 << 24) - 1, 1 << 24, (1 << 24) + 1, (1 << 24) + 4].to_vec();
     let long_cases: Vec<(usize, u64)> = lens.iter().flat_map(|&l| (0..6u64).map(move |v| (l, v))).collect();
-    e.run_list("long-inputs-around-2^16-and-2^24", &long_cases, |(l, v)| json!({"long_len": l, "variant": v}), |(l, v), rec| {
-        let mut b: Vec<u8> = (0..*l).map(|i| crate::engine::mix(seed ^ *v, i as u64 / 3) as u8).collect();
-        let version = 1 + (*v % 3);
-        b[..8].copy_from_slice(&version.to_le_bytes());
-        let end = if version >= 3 { *l - 4 } else { *l };
-        let root: u64 = match *v {
-            0 | 1 | 2 => (end - 17) as u64,
-            3 => 0,
-            4 => u64::MAX - 3,
-            _ => (*l as u64) + 5,
-        };
-        b[end - 8..end].copy_from_slice(&root.to_le_bytes());
-        b[end - 16..end - 8].copy_from_slice(&(*l as u64 * 3).to_le_bytes());
-        check_bytes(&b, rec)
-    });
+    e.run_list("long-inputs-around-2^16-and-2^24", &long_cases, |(l, v)| json!({"long_len": l, "variant": v, "data_seed": seed.to_string()}), |(l, v), rec| check_long(l, v, seed, rec));
     // (3) every truncation and every single-byte mutation of valid files
     let mut files: Vec<Vec<u8>> = vec![];
     for inp in [
@@ -293,8 +305,16 @@ pub fn replay(_sub: &str, case: &Value) -> Option<CheckResult> {
     Some(crate::engine::guarded(|| {
         if let Some(b) = case.get("bytes") {
             check_bytes(&unhex(b.as_str().ok_or_else(bad)?).ok_or_else(bad)?, &mut rec)
-        } else if case.get("lint").is_some() || case.get("long_len").is_some() {
-            Ok(())
+        } else if case.get("lint").is_some() {
+            match unsafe_lint_once() {
+                Ok(Ok(_)) => Ok(()),
+                Ok(Err(first)) => Err(Fail::new("unsafe-code", format!("the library does not compile with -F unsafe_code: {}", first))),
+                Err(why) => Err(Fail::new("harness-io", why)),
+            }
+        } else if let Some(l) = case.get("long_len").and_then(|x| x.as_u64()) {
+            let v = case.get("variant").and_then(|x| x.as_u64()).ok_or_else(bad)?;
+            let seed: u64 = case.get("data_seed").and_then(|x| x.as_str()).and_then(|x| x.parse().ok()).ok_or_else(bad)?;
+            check_long(&(l as usize), &v, seed, &mut rec)
         } else {
             check_mut(&MutCase::from_json(case).ok_or_else(bad)?, &mut rec)
         }
